@@ -1,0 +1,79 @@
+//go:build verif
+
+package retriever
+
+// Contracts for the govc verifier (/verif/DESIGN.md). Package clause and comments only.
+//
+// C20 kernel, part 1: archive entry names. safeArchivePath(p) is what every name handed to the file-writing code
+// must satisfy: produced by path.Clean from a relative, slash-separated name without a volume prefix and without a
+// ".." component, and not ".", ".." or anything that starts with "../". sanitizeArchivePath is proved to return
+// only such names (or an error), the tar unpacker is proved to write only to names it returned, only for regular
+// file entries of non-negative size, and never twice to the same name.
+
+//@ import strings "strings"
+//@ import path "path"
+
+//@ pure func safeArchivePath(p string, raw string) bool {
+//@   p == pathClean(trimmed(raw)) && isCleanPath(p) && trimmed(raw) != ""
+//@   && !strContains(trimmed(raw), "\\") && !pathIsAbs(trimmed(raw)) && !filepathIsAbs(trimmed(raw)) && !windowsVolume(trimmed(raw))
+//@   && (forall i int :: 0 <= i && i < splitCount(trimmed(raw), "/") ==> splitPart(trimmed(raw), "/", i) != "..")
+//@   && p != "." && p != ".." && !strHasPrefix(p, "../") && !pathIsAbs(p)
+//@ }
+//@ pure func windowsVolume(v string) bool { len(v) >= 2 && v[1] == 58 && ((v[0] >= 65 && v[0] <= 90) || (v[0] >= 97 && v[0] <= 122)) }
+
+//@ func hasWindowsVolumeName(value string) bool
+//@   nomod
+//@   ensures result == windowsVolume(value)
+//@   ensures short: len(value) < 2 ==> !result
+
+//@ func sanitizeArchivePath(value string) (string, error)
+//@   nomod
+//@   ensures safe: result.1 == nil ==> safeArchivePath(result.0, value)
+//@   ensures d1: result.1 == nil ==> result.0 == pathClean(trimmed(value)) && isCleanPath(result.0) && trimmed(value) != ""
+//@   ensures d2: result.1 == nil ==> !strContains(trimmed(value), "\\") && !pathIsAbs(trimmed(value)) && !filepathIsAbs(trimmed(value)) && !windowsVolume(trimmed(value))
+//@   ensures d3: result.1 == nil ==> (forall i int :: 0 <= i && i < splitCount(trimmed(value), "/") ==> splitPart(trimmed(value), "/", i) != "..")
+//@   ensures d4: result.1 == nil ==> result.0 != "." && result.0 != ".." && !strHasPrefix(result.0, "../") && !pathIsAbs(result.0)
+//@   ensures rejected: result.1 != nil ==> result.0 == ""
+//@   loop 0
+//@     invariant range: -1 <= rangeindex && rangeindex < splitCount(trimmed(value), "/")
+//@     invariant clean: forall i int :: 0 <= i && i <= rangeindex ==> splitPart(trimmed(value), "/", i) != ".."
+
+// C20 kernel, part 2: what the tar unpacker writes. insideName(p) is the condition under which filepath.Join(dir, p)
+// stays inside dir: a clean, relative path that is not ".", ".." and does not start with "../". The file-writing
+// function is specified by what its callers must guarantee (trusted: its body is operating-system calls):
+// the name is inside, the entry being read is a regular file, the declared size is not negative and the name has not
+// been written before during this unpack (ghost set written[outputDir]). unpackTarWithOptions is then verified to
+// meet this for every entry of every archive.
+
+//@ import tar "archive/tar"
+//@ import io "io"
+//@ ghost comp written set[string]
+//@ pure func insideName(p string) bool { isCleanPath(p) && !pathIsAbs(p) && p != "." && p != ".." && !strHasPrefix(p, "../") }
+
+//@ func unpackTarFileTracked(reader io.Reader, outputDir string, relativePath string, expectedSize int64, trackIntegrity bool) (unpackedFileIntegrity, error)
+//@   trusted
+//@   requires inside: insideName(relativePath)
+//@   requires regular: typeof(reader) == *tar.Reader && tarEntryRegular[reader.(*tar.Reader)]
+//@   requires size: expectedSize >= 0
+//@   requires once: !(relativePath in written[outputDir])
+//@   modifies written[outputDir]
+//@   ensures result.1 == nil ==> written[outputDir] == old(written[outputDir]) union {relativePath}
+//@   ensures result.1 != nil ==> written[outputDir] == old(written[outputDir])
+
+//@ func prepareOutputDirectory(outputDir string, force bool) error
+//@   trusted
+//@   modifies written[outputDir]
+//@   ensures result == nil ==> written[outputDir] == {}
+
+//@ func (s ProgressFunc) emit(event ProgressEvent)
+//@   trusted
+//@   nomod
+
+//@ func unpackTarWithOptions(reader io.Reader, outputDir string, force bool, options ArchiveOptions, trackIntegrity bool) (map[string]unpackedFileIntegrity, error)
+//@   modifies written[outputDir], all(ghost:g.tarEntryRegular)
+//@   ensures onlySafeNames: result.1 == nil ==> (forall p string :: p in written[outputDir] ==> insideName(p))
+//@   loop 0
+//@     invariant reader: tarReader != nil && fresh(tarReader)
+//@     invariant seen: seen != nil && fresh(seen) && (forall p string :: p in written[outputDir] ==> p in seen)
+//@     invariant safe: forall p string :: p in written[outputDir] ==> insideName(p)
+//@     invariant tracked: trackIntegrity ==> integrity != nil && fresh(integrity)
